@@ -308,3 +308,79 @@ def cleanup(lines):
 
 def short(l, n=100):
     return l if l is None or len(l) <= n else l[:n] + "...(%d chars)" % len(l)
+
+
+# ------------------------------------------------------------------ running a history three ways
+import vlib
+
+LIBHDF5_KEY = "hdf5-lib-name-replace-overflow"
+
+
+def run_three(history, workdir, tag, exe, timeout=180):
+    """-> {backend: dict(lines, outcome, stack, model)} for adf and hdf5 (the model is run with that back end's
+    child-order policy)"""
+    out = {}
+    for be in ("adf", "hdf5"):
+        s = instantiate(history, be, workdir, tag)
+        text = "\n".join(s) + "\n"
+        il, outcome, stack = vlib.run_impl(exe, text, timeout=timeout, want_stack=True)
+        ml = vlib.run_model("c02", text)
+        cleanup(s)
+        out[be] = dict(lines=il, outcome=outcome, stack=stack, model=ml, script=s)
+    return out
+
+
+def is_libhdf5_name_replace(res):
+    return res["outcome"].startswith("asan:") and "H5G_name_replace" in res["stack"]
+
+
+def refinement_failure(res):
+    """None, or a description of where this back end stops behaving like the ideal tree"""
+    if res["outcome"] != "ok":
+        return {"outcome": res["outcome"], "stack": res["stack"], "after_line": len(res["lines"])}
+    d = compare(res["model"], res["lines"])
+    if d:
+        return {"line": d[0], "op": short(res["script"][d[0]], 160) if d[0] < len(res["script"]) else None,
+                "ideal_tree": short(d[1], 160), "implementation": short(d[2], 160)}
+    return None
+
+
+def canon_for_equivalence(script, lines, mask):
+    """canonical view for ADF-vs-HDF5 comparison: child name lists as sorted sets (the back ends order children
+    differently after a rename), bytes the ideal tree leaves unspecified blanked out, partial name windows dropped"""
+    out = []
+    for i, l in enumerate(lines):
+        op = script[i].split(" ") if i < len(script) else [""]
+        m = mask[i] if i < len(mask) else None
+        if l.startswith("ok n:"):
+            if op[0] == "names" and op[3] != "1":
+                out.append("ok n:<window>")
+            else:
+                out.append("ok n:" + ",".join(sorted(l[5:].split(","))))
+        elif l.startswith("ok d:") and m and m.startswith("ok d:") and "?" in m and len(m) == len(l):
+            out.append("".join("?" if a == "?" else b for a, b in zip(m, l)))
+        elif l == "err" and m and m.startswith("ok d:") and set(m[5:]) == {"?"}:
+            out.append(m)
+        else:
+            out.append(l)
+    return out
+
+
+def equivalence_failure(r):
+    """None, or where ADF and HDF5 differ observably on the same program"""
+    a, h = r["adf"], r["hdf5"]
+    if a["outcome"] != "ok" or h["outcome"] != "ok":
+        if a["outcome"] == h["outcome"]:
+            return None
+        return {"adf_outcome": a["outcome"], "hdf5_outcome": h["outcome"], "stack": a["stack"] or h["stack"]}
+    ca = canon_for_equivalence(a["script"], a["lines"], a["model"])
+    ch = canon_for_equivalence(h["script"], h["lines"], h["model"])
+    # where the ideal tree itself lists children in back-end order, names windows were canonicalised above
+    for i in range(max(len(ca), len(ch))):
+        x = ca[i] if i < len(ca) else None
+        y = ch[i] if i < len(ch) else None
+        if x != y and not (x and y and x.startswith("ok d:") and y.startswith("ok d:") and len(x) == len(y)
+                           and all(p == q or p == "?" or q == "?" for p, q in zip(x, y))):
+            return {"line": i, "op": short(a["script"][i], 160) if i < len(a["script"]) else None,
+                    "adf": short(x, 160), "hdf5": short(y, 160)}
+    return None
